@@ -413,6 +413,8 @@ def gen_session(rng):
         if r < 0.25:
             ops.append(("prefetch", rng.choice([n, n, n + rng.randrange(0, 40), max(0, n - rng.randrange(0, 10)),
                                                 rng.randrange(0, n + 1), rng.randrange(0, n + 1)])))
+        elif r < 0.36:
+            ops.append(("seekcur", rng.randrange(-15, 16)))
         elif r < 0.45:
             ops.append(("seek", rng.randrange(0, span)))
         elif r < 0.7:
@@ -463,6 +465,13 @@ def run_session_impl(rng, sess, fail_rate):
         elif op[0] == "seek":
             f.seek(op[1])
             coq_ops.append("OpSeek %d" % op[1])
+        elif op[0] == "seekcur":
+            d = max(op[1], -f._pos)          # a negative position is refused (IOError), not part of this property
+            want = f._pos + d
+            f.seek(d, 1)
+            coq_ops.append("OpSeekCur %s" % coq(d))
+            if f._pos != want or f._realpos != want:
+                failures.append(("seek(SEEK_CUR)", want, 0, bytes()))
         elif op[0] == "read":
             stub.calls = []
             pos = f._pos
@@ -527,6 +536,11 @@ def direct_sessions(ctx, scale):
             (bytes(range(1, 61)), 16, 3, 2, [("prefetch", 17), ("seek", 10), ("read", 20), ("read", 40)]),
             (bytes(range(1, 41)), 8, 0, 1, [("prefetch", 0), ("read", 40)]),
             (bytes(range(1, 41)), 8, 0, 1, [("prefetch", 16), ("readv", [(10, 25), (0, 40)]), ("read", 3)]),
+            # relative seeks while the read buffer holds look-ahead data (bufsize > 1)
+            (bytes(range(1, 101)), 16, 10, 1, [("prefetch", 100), ("read", 3), ("seekcur", 5), ("read", 4),
+                                               ("seekcur", -2), ("read", 30)]),
+            (bytes(range(1, 101)), 32, -1, 1, [("read", 3), ("seekcur", 7), ("read", 4), ("prefetch", 100),
+                                               ("seekcur", 0), ("read", 50)]),
         ]
         for j in range(150 * scale):
             sess = fixed[j] if j < len(fixed) else gen_session(rng)
@@ -690,6 +704,9 @@ def gen_real_case(rng, thorough):
                                                      rng.randrange(0, size + 1), max(0, size - rng.randrange(1, 5000))])])
         elif r < 0.34:
             ops.append(["grow", rng.choice([1, 100, rng.randrange(1, 70000)])])
+        elif r < 0.38:
+            ops.append(["seek", rng.choice([0, 1, -1, rng.randrange(-9000, 9000), rng.randrange(-70000, 70000)]),
+                        rng.choice([1, 1, 2])])
         elif r < 0.45:
             ops.append(["seek", rng.choice([0, rng.randrange(0, size + 10), rng.randrange(0, span)])])
         elif r < 0.7:
@@ -704,7 +721,14 @@ def gen_real_case(rng, thorough):
                     o = max(0, chunks[-1][0] + rng.randrange(-3000, 3000))
                 chunks.append([o, rng.choice([0, 1, 10, rng.randrange(0, lim), rng.randrange(0, 40000) % (lim + 1)])])
             ops.append(["readv", chunks, cap])
-    case = {"size": size, "mode": mode, "seed": rng.randrange(1 << 30), "ops": ops}
+    case = {"size": size, "mode": mode, "seed": rng.randrange(1 << 30), "ops": ops,
+            "bufsize": rng.choice([-1, -1, 0, 2, 100, 8192, 40000])}
+    if rng.random() < 0.15:
+        osize = rng.choice([1, 6000, rng.randrange(1, 120000)])
+        k = rng.randrange(0, len(ops) + 1)
+        case["second"] = osize
+        case["ops"] = ops[:k] + [["other", rng.randrange(0, osize), rng.randrange(0, 40000), True]] + ops[k:]
+        return case
     if rng.random() < 0.15 and size <= 70000:
         # switch point after every critical section of the prefetch thread; the application pauses between ops
         case["pause"] = rng.choice([0.02, 0.05])
@@ -763,7 +787,25 @@ def execute_real(rig, root, case, name):
         if case.get("partial_send"):
             chan.send = partial_send
         nonlocal data
-        f = rig.sftp.open("/" + name, "rb")
+        import paramiko
+        sftp, other, g, odata = rig.sftp, None, None, b""
+        if case.get("second"):
+            # two live sftp sessions (two SFTPServer objects in the server process), both fresh so that they hand
+            # out the same handle names; the second opens ANOTHER file after the first
+            sftp = paramiko.SFTPClient.from_transport(rig.tc)
+            other = paramiko.SFTPClient.from_transport(rig.tc)
+        f = sftp.open("/" + name, "rb", case.get("bufsize", -1))
+        if other is not None:
+            odata = file_bytes(case["second"], case["seed"] + 99)
+            with open(os.path.join(root, "o" + name), "wb") as fh:
+                fh.write(odata)
+            g = other.open("/o" + name, "rb")
+            g.prefetch()
+            d = g.read(5000)
+            if d != odata[:5000]:
+                res["bad"] = ("wrong-bytes-other-session", "a second sftp session read other bytes than its file holds",
+                              -1, odata[:5000], d)
+                return
         if case.get("pause"):
             f._prefetch_lock = PausingLock(f._prefetch_lock, reader["t"], case["pause"])
         pos = 0
@@ -792,8 +834,26 @@ def execute_real(rig, root, case, name):
                                   "bytes", idx, len(payload), len(disk))
                     return
             elif op[0] == "seek":
-                f.seek(op[1])
-                pos = op[1]
+                whence = op[2] if len(op) > 2 else 0
+                base = 0 if whence == 0 else (pos if whence == 1 else len(data))
+                off = max(op[1], -base)          # negative positions are refused; not part of this property
+                f.seek(off, whence)
+                pos = base + off
+                if f.tell() != pos:
+                    res["bad"] = ("wrong-position-after-seek", "seek(%d, %d) left tell() at %d, expected %d"
+                                  % (off, whence, f.tell(), pos), idx, pos, f.tell())
+                    return
+            elif op[0] == "other":
+                # the second session goes on with its own file in between, then closes it
+                g.seek(op[1])
+                d = g.read(op[2])
+                if d != odata[op[1]:op[1] + op[2]]:
+                    res["bad"] = ("wrong-bytes-other-session", "the second sftp session read other bytes than its "
+                                  "file holds", idx, odata[op[1]:op[1] + op[2]], d)
+                    return
+                if op[3]:
+                    g.close()
+                    other.close()
             elif op[0] == "read":
                 d = f.read(op[1])
                 exp = data[pos:pos + op[1]]
@@ -817,6 +877,16 @@ def execute_real(rig, root, case, name):
                 if op[1]:
                     pos = op[1][-1][0] + len(outs[-1])
         f.close()
+        if case.get("second"):
+            for c in (other, sftp):
+                try:
+                    c.close()
+                except Exception:
+                    pass
+            try:
+                os.unlink(os.path.join(root, "o" + name))
+            except OSError:
+                pass
 
     try:
         st, v = with_watchdog(body, case.get("watchdog", WATCHDOG))
@@ -888,6 +958,24 @@ REGRESSIONS = [
      {"size": 120000, "mode": "random", "seed": 23,
       "ops": [["readv", [[0, 70000]], None], ["readv", [[32768, 500], [65536, 500], [40000, 30000]], None],
               ["seek", 98304], ["read", 2000]]}),
+    ("relative-seek-with-read-buffer",
+     "a file opened with bufsize > 1 holds look-ahead data in its read buffer: seek(d, SEEK_CUR) / seek(d, SEEK_END) "
+     "must move relative to the position the application sees, and the following reads return the file's bytes there",
+     {"size": 90000, "mode": "full", "seed": 24, "bufsize": 100,
+      "ops": [["prefetch", None, None], ["read", 10], ["seek", 5, 1], ["read", 20], ["seek", -3, 1], ["read", 4],
+              ["seek", 40000, 1], ["read", 5000], ["seek", -10, 2], ["read", 20]]}),
+    ("relative-seek-with-read-buffer-default-bufsize",
+     "same with the default buffering of SFTPClient.open and readv in between",
+     {"size": 70000, "mode": "random", "seed": 25,
+      "ops": [["read", 7], ["seek", 1, 1], ["read", 3], ["readv", [[100, 50], [65000, 9000]], None], ["seek", -20, 1],
+              ["read", 40], ["prefetch", 2, None], ["seek", 32768, 1], ["read", 100]]}),
+    ("two-sessions-same-handle-name",
+     "two sftp sessions are alive in the server process and the second opens another file after the first (both get "
+     "the handle name of a fresh session): prefetch / readv / reads of the first must still return ITS file's bytes, "
+     "also after the second session closed",
+     {"size": 50000, "mode": "full", "seed": 26, "second": 30000,
+      "ops": [["prefetch", None, None], ["read", 100], ["seek", 40000], ["read", 5000], ["other", 100, 2000, False],
+              ["readv", [[10, 50], [20000, 40000]], None], ["other", 29000, 5000, True], ["seek", 5], ["read", 45000]]}),
     ("concurrent-send-interleaves",
      "BaseSFTP._send_packet is not a critical section: while a prefetch thread is still sending READ requests, another "
      "request of the same SFTPClient that needs more than one sock.send (partial sends) gets the thread's bytes in "
@@ -967,8 +1055,9 @@ def run(ctx):
                 "MAX_REQUEST_SIZE 4..32, bufsize 0/3/10/default, prefetch with right / too large / too small size, "
                 "seeks, reads, readv with overlapping / unordered / beyond-EOF chunks, responses delivered in random "
                 "order with random short reads, occasional failure status). Real server: files 0..300 KiB (boundaries "
-                "32767/32768/32769/65536), the served backing file object returns full / random / half / tiny prefixes under the real SFTPHandle.read, prefetch with cap "
-                "None or 1..8, random seeks, readv lists overlapping / unordered / beyond EOF. A case is non-trivial "
+                "32767/32768/32769/65536), the served backing file object returns full / random / half / tiny prefixes under the real SFTPHandle.read, files opened with "
+                "bufsize -1/0/2/100/8192/40000, prefetch with cap None or 1..8, absolute / SEEK_CUR / SEEK_END seeks, a "
+                "second live sftp session with another file open at the same time, readv lists overlapping / unordered / beyond EOF. A case is non-trivial "
                 "when distinct and its file and op list are non-empty.")
     ctx.trusted += ["model coq/Model/C28.v is hand-written; tied to paramiko/sftp_file.py (and the read loop of "
                     "file.py) by the direct-drive differential run (vm_compute of the model's own definitions)",
